@@ -1,3 +1,4 @@
+import WalrusVerif.Model.Recover
 import WalrusVerif.Lemmas.AEngStepR
 import WalrusVerif.Props.C01
 /-!
@@ -70,6 +71,85 @@ theorem C06_batch_after_restart (c : Cfg) (hc : CfgOK c) (n : Nat) (a : ATopic) 
   have := Props.C01.C01_batch_is_prefix c hc n _ k r.1 maxB cp
   rw [r.2.1] at this
   exact this
+
+/-! ### the recovery walk of one block (storage-level model `Eng`) -/
+
+/-- the entries `es` are found on disk as cells at consecutive positions starting at offset `o` -/
+def Laid (c : Cfg) (cells : List Cell) : Nat → List Pay → Prop
+  | _, [] => True
+  | o, p :: r => (∃ x, cellAt cells o = some x ∧ x.pay = p) ∧ Laid c cells (o + c.metaSz + p.len) r
+
+def totalRaw (c : Cfg) (es : List Pay) : Nat := (es.map fun p => c.metaSz + p.len).sum
+
+/-- **The recovery walk recovers exactly what is laid out in a block.**  Whatever else the file holds: if the
+entries `es` lie back to back from position `used` of the block, fit below the block's limit, and are followed by
+an unwritten position (or by too little room for another header), then the walk of `startup_chore` over that block
+counts exactly those entries and reports exactly their extent as `used` - nothing acknowledged inside a recovered
+block is dropped, and nothing beyond the last written entry is picked up. -/
+theorem C06_walk_recovers_laid_block (c : Cfg) (hm : 0 < c.metaSz) (cells : List Cell) (base lim : Nat) (es : List Pay) :
+    ∀ (used n fuel : Nat), Laid c cells (base + used) es → used + totalRaw c es ≤ lim →
+      (cellAt cells (base + used + totalRaw c es) = none ∨ used + totalRaw c es + c.metaSz > lim) →
+      es.length < fuel →
+      walkBlock c cells base lim fuel used n = (used + totalRaw c es, n + es.length) := by
+  induction es with
+  | nil =>
+    intro used n fuel _ _ hend hf
+    cases fuel with
+    | zero => omega
+    | succ k =>
+      simp only [totalRaw, List.map_nil, List.sum_nil, Nat.add_zero, List.length_nil] at hend ⊢
+      unfold walkBlock
+      rcases hend with hend | hend
+      · rw [hend]
+      · cases hx : cellAt cells (base + used) with
+        | none => rfl
+        | some x =>
+          simp only
+          have : used + c.metaSz + x.pay.len > lim := by omega
+          simp [this]
+  | cons p r ih =>
+    intro used n fuel hl hfit hend hf
+    obtain ⟨⟨x, hx, hp⟩, hrest⟩ := hl
+    have htot : totalRaw c (p :: r) = c.metaSz + p.len + totalRaw c r := by simp [totalRaw]
+    rw [htot] at hfit hend ⊢
+    cases fuel with
+    | zero => simp at hf
+    | succ k =>
+      unfold walkBlock
+      rw [hx]
+      simp only [hp]
+      have h1 : ¬ (used + c.metaSz + p.len > lim) := by omega
+      simp only [h1, if_false]
+      by_cases h2 : used + c.metaSz + p.len + c.metaSz > lim
+      · -- no room for another header: nothing can follow
+        have hr : r = [] := by
+          cases r with
+          | nil => rfl
+          | cons q r' =>
+            exfalso
+            have : totalRaw c (q :: r') ≥ c.metaSz := by simp [totalRaw]; omega
+            omega
+        subst hr
+        simp only [h2, if_true, totalRaw, List.map_nil, List.sum_nil, List.length_cons, List.length_nil]
+        congr 1 <;> omega
+      · simp only [h2, if_false]
+        have := ih (used + c.metaSz + p.len) (n + 1) k
+          (by rw [show base + (used + c.metaSz + p.len) = base + used + c.metaSz + p.len by omega]; exact hrest)
+          (by omega)
+          (by
+            rcases hend with hend | hend
+            · left; rw [show base + (used + c.metaSz + p.len) + totalRaw c r = base + used + (c.metaSz + p.len + totalRaw c r) by omega]
+              exact hend
+            · right; omega)
+          (by simp only [List.length_cons] at hf; omega)
+        rw [this]
+        simp only [List.length_cons]
+        congr 1 <;> omega
+
+/-- three entries laid out from the start of a block, a stale cell further on: the walk returns the three -/
+example : walkBlock smallCfg
+    [⟨4096, ⟨0, false⟩, ⟨100, 1⟩⟩, ⟨4096 + 356, ⟨0, false⟩, ⟨0, 0⟩⟩, ⟨4096 + 612, ⟨0, false⟩, ⟨1000, 3⟩⟩,
+     ⟨4096 + 3000, ⟨0, false⟩, ⟨5, 9⟩⟩] 4096 4096 17 0 0 = (100 + 0 + 1000 + 3 * 256, 3) := by decide +kernel
 
 /-! Non-vacuity: a history that rotates a block, restarts with the cursor in the (former) active
 block, restarts again, and drains; evaluated by the kernel (small geometry). -/
